@@ -120,6 +120,19 @@ func (r *Run) BeginStep() bool {
 
 func (r *Run) Logf(f string, a ...any) { r.W.Logf(f, a...) }
 
+// Calm ends the lock-park exploration of this run (simrt.LockYield park mode): goroutines descheduled at a lock
+// acquisition are resumed and no further one is. Harnesses call it when they leave their exploratory main loop for a
+// drain or an epilogue whose rounds are counted.
+func (r *Run) Calm() {
+	if !r.W.Park {
+		return
+	}
+	r.W.Park = false
+	for i := 0; i < 8 && r.W.ParkedNow() > 0; i++ {
+		r.Advance(3 * time.Millisecond)
+	}
+}
+
 type Harness func(r *Run) *Violation
 
 type PropertyDef struct {
@@ -165,6 +178,7 @@ func Execute(t *testing.T, p *PropertyDef, seed uint64, stratum string, gen, sch
 		s = simrt.NewChooser(simrt.Mix(seed, 2))
 	}
 	w := simrt.NewWorld(seed, g, s, keepLog)
+	w.Park = lockPark(p.ID, seed)
 	stepCap := p.StepCap
 	if stepCap == 0 {
 		stepCap = 20000
@@ -242,6 +256,9 @@ func Execute(t *testing.T, p *PropertyDef, seed uint64, stratum string, gen, sch
 	for k, v := range w.Probes {
 		res.Probes[k] += v
 	}
+	if n := w.Parks(); n > 0 {
+		res.Probes["lock_parked"] += n
+	}
 	res.Faults = w.Faults
 	res.Sample = run.Sample
 	res.NonTrivial = run.NonTriv
@@ -269,4 +286,20 @@ func sortedKeys[M ~map[string]V, V any](m M) []string {
 func jsonLine(v any) string {
 	b, _ := json.Marshal(v)
 	return string(b)
+}
+
+// lockPark says whether this run deschedules goroutines at lock acquisitions (simrt.LockYield, park mode; DESIGN.md
+// 7.2 "engine B-lite"). A pure function of the property and the run's seed, so a replay file (which carries the seed)
+// reproduces it. Opt-in per property: a harness qualifies when none of its "nothing is pending, so the tool is done"
+// decisions can be taken while a goroutine is parked (World.ParkedNow, Run.Calm). SIM_LOCK_PARK=0/1 forces it.
+var lockParkProps = map[string]bool{"C05": true, "C06": true, "C14": true, "C15": true, "C16": true, "C17": true, "C18": true, "C19": true}
+
+func lockPark(prop string, seed uint64) bool {
+	switch os.Getenv("SIM_LOCK_PARK") {
+	case "0":
+		return false
+	case "1":
+		return true
+	}
+	return lockParkProps[prop] && simrt.Mix(seed, 0x9a7c)%3 == 0
 }
